@@ -145,7 +145,11 @@ func ParseDatetime(s string) (Datetime, error) {
 	}
 
 	if len(s) == 0 {
-		return Datetime{time.Date(year, time.Month(month), int(day), 0, 0, 0, 0, time.UTC).UnixMilli()}, nil
+		t := time.Date(year, time.Month(month), int(day), 0, 0, 0, 0, time.UTC)
+		if t.Before(minDatetime) || t.After(maxDatetime) {
+			return Datetime{}, fmt.Errorf("%w: timestamp out of range", errDatetime)
+		}
+		return Datetime{t.UnixMilli()}, nil
 	}
 
 	if s, err = expectChar(s, 'T'); err != nil {
